@@ -463,21 +463,9 @@ func (s *hState) hAnswers(mask int) (sizes ref.FeeSizes, estErr string, err erro
 		if e == nil {
 			return fmt.Errorf("%s guessed a size although an unsigned input has a missing/unsupported spent script (%v)", name, rerr)
 		}
-		isMissing, isUnsup := errors.Is(e, bt.ErrEmptyPreviousTxScript), errors.Is(e, bt.ErrUnsupportedScript)
-		switch {
-		case both:
-			if !isMissing && !isUnsup {
-				return fmt.Errorf("%s: error %q is neither ErrEmptyPreviousTxScript nor ErrUnsupportedScript", name, e)
-			}
-		case errors.Is(rerr, ref.ErrFeeMissingPrev):
-			if !isMissing {
-				return fmt.Errorf("%s: spent script missing, error %q is not ErrEmptyPreviousTxScript", name, e)
-			}
-		default:
-			if !isUnsup {
-				return fmt.Errorf("%s: spent script unsupported, error %q is not ErrUnsupportedScript", name, e)
-			}
-		}
+		// the statement asks for AN error ("reports an error rather than guessing"); which sentinel, wrapped or
+		// not, is the library's choice (benign change C11-b2-1 reports a zero-length script as 'not supplied')
+		_ = both
 		return nil
 	}
 	estErr = "ok"
